@@ -23,6 +23,10 @@ var commands = map[string]cmdFn{}
 func register(name string, f cmdFn) { commands[name] = f }
 
 func main() {
+	if isGoShim() {
+		goShim() // invoked as "go" by the package loader of the code under test (C15)
+		return
+	}
 	if len(os.Args) < 2 {
 		usage()
 	}
